@@ -23,6 +23,8 @@ pub fn gen_base(seed: u64, idx: u64) -> Plan {
     let mut conns = Vec::new();
     let mut nonce = 1u64;
     let plain = r.chance(1, 3);
+    // one base plan in five runs the HTTPS arm of the accept loop
+    let tls = r.chance(1, 5);
     for i in 0..nconns {
         let mut c = blank_conn(3000 + i as u16);
         c.start_ms = r.range(0, 300);
@@ -30,7 +32,10 @@ pub fn gen_base(seed: u64, idx: u64) -> Plan {
             c.c2s = gen_wire(&mut r, false);
             c.s2c = gen_wire(&mut r, false);
         }
-        let role = r.below(9);
+        let role = match r.below(9) {
+            8 if tls => 7, // the HTTP/2 client speaks plain TCP only
+            x => x,
+        };
         let mut steps = Vec::new();
         let mut reqs = Vec::new();
         match role {
@@ -179,12 +184,17 @@ pub fn gen_base(seed: u64, idx: u64) -> Plan {
         c.reqs.push(w.plan());
         conns.push(c);
     }
+    if tls {
+        for c in conns.iter_mut() {
+            c.kind = ConnKind::Tls;
+        }
+    }
     let nw = r.usize_in(0, 4);
     let waiters = (0..nw).map(|_| *r.pick(&[0u64, 10, 200, 1_000, 5_000, 50_000])).collect();
     Plan {
         property: "C17".into(),
         seed: mix(seed, idx),
-        server: ServerPlan { mode, body_limit: 1024, api: ApiKind::Work, rt_override: None, tls: false },
+        server: ServerPlan { mode, body_limit: 1024, api: ApiKind::Work, rt_override: None, tls },
         conns,
         shutdown: Some(ShutdownPlan {
             trigger: CloseTrigger::AfterEvent(u64::MAX),
@@ -194,7 +204,7 @@ pub fn gen_base(seed: u64, idx: u64) -> Plan {
         }),
         accept_errs: vec![],
         final_health: false,
-        note: format!("base idx={idx}"),
+        note: format!("base idx={idx} tls={tls}"),
     }
 }
 
